@@ -3,6 +3,9 @@ from vp_lib.api import H, cover
 from vp_lib import cachelab as K
 from vp_lib import writerlab as W
 
+# sub-second timestamps (pickle senders transmit floats): two of them share a whole second
+K.STAMPS = [10.75, 10.25, 30]
+
 
 def _pass(cmod, strat, b0, b1, b2, b3, pv, ea, eb, faults, cb_mode, cb_peek, cb_drain, ub):
   cache = K.build(cmod, strat, [b0, b1, b2, b3], [pv, pv + 1, pv + 2, pv + 3], 0)
